@@ -166,6 +166,8 @@ def run(ctx):
         'metadata written by the library can only be 143..512 bytes long (fixed keys); shorter blocks are covered by the header vectors only',
         'names longer than 4096 bytes are outside the property and not generated',
         'allocation limits are multiples of 32 (as in every well-formed file)',
+        'a writer whose metadata differs from the file\'s (same file name, other import path; same or different metadata length) must leave the file '
+        'exactly as it is: metadata text, header, layout and content (its increments must not appear)',
     ]
     ctx.inject('internal/counter', 'internal/verifh/c10')
 
@@ -269,6 +271,6 @@ def run(ctx):
                     'obs': {k: v for k, v in e['obs'].items() if k != 'recs'}})
     ctx.cov['rule'] = ('vectors = every (limit, name length) / short-name / metadata-length vector TLC enumerates, replayed into place, hash, mappedHeader; '
                        'observations = a full page period of limits x size classes, random names, all metadata lengths, validated by TLC; '
-                       'behaviours = TLC -simulate walks of FileFormatOps replayed step by step (library x2 + independent writer) with the raw bytes '
+                       'behaviours = TLC -simulate walks of FileFormatOps replayed step by step (library x2 + independent writer + writers with different metadata) with the raw bytes '
                        'walked by the independent decoder after every step; random runs validated as traces of FileFormatOps')
     ctx.cov['distinct_nontrivial'] = ctx.cov['vectors_replayed'] + len(behs) + len(keys)
